@@ -84,7 +84,8 @@ def case_class(tc, cfg):
     top = sig.split("<")[0] if "<" in sig else "leaf"
     m = re.findall(r"[A-Za-z0-9_.]+", sig)
     kway, _, vway = tc["way"].rpartition(":") if top == "map" else ("", "", tc["way"])
-    return {"form": tc["form"], "top": top, "vleaf": m[-1], "depth": tc["depth"], "kway": kway, "vway": vway, "cfg": cfg}
+    return {"form": tc["form"], "top": top, "vleaf": m[-1], "depth": tc["depth"], "kway": kway, "vway": vway,
+            "vwl": vway.rpartition(":")[2], "cfg": cfg}
 
 
 def assemble(ctxprog, cases, lits, with_struct=lambda tc: True):
@@ -321,21 +322,28 @@ class Runner:
             self.units[unit.cid] = unit
             self.lab.add_case(unit.cid, unit.prog, unit.opts)
             return
-        # use_type_alias=false: the serialization code generated for fields (or container elements) of a typedef'd base
-        # type does not compile (C01's business, not a statement about constants or defaults); for those cases the
-        # constants are what is judged
+        # use_type_alias=false: the serialization code generated for fields (or container elements) whose type is a
+        # typedef of a base type or struct-like does not compile (C01's business, not a statement about constants or
+        # defaults); for those cases the constants are what is judged
         unit.prog = assemble(self.ctxprog, unit.cases, self.lits,
-                             with_struct=lambda tc: not (unit.cfg == "noalias" and (
-                                 tc["form"] == "v" or (tc["form"] in ("t", "u") and tc["depth"] == 0 and
-                                                       tc["sig"] not in ("In", "b.BIn")))))
+                             with_struct=lambda tc: self.with_struct(unit, tc))
         if unit.single:
             keep = {}
             for tc in unit.cases:
                 for d in tc["defs"]:
                     keep.setdefault(d["file"] - 1, set()).add(d["d"]["name"])
+                if not self.with_struct(unit, tc) and tc["way"] not in model.NO_STRUCT_WAYS:
+                    keep.setdefault(0, set()).add("k_i32_c")      # the include stays in use without the struct
             prune(unit.prog, keep)
         self.units[unit.cid] = unit
         self.lab.add_case(unit.cid, unit.prog, unit.opts)
+
+    def with_struct(self, unit, tc):
+        if tc["way"] in model.NO_STRUCT_WAYS:
+            return False
+        if self.ctx.tier == "quick" and tc["depth"] >= 1 and tc["form"] in ("l", "v") and tc["j"] > 3:
+            return False       # quick tier: field defaults of containers for the first three ways of writing the leaves only
+        return not (unit.cfg == "noalias" and (tc["form"] == "v" or (tc["form"] in ("t", "u") and tc["depth"] == 0)))
 
     def viol(self, check, kind, unit, tc, observed, expected, what):
         cls = dict(case_class(tc, unit.cfg), check=check, kind=kind)
@@ -536,8 +544,10 @@ class Runner:
             return
         e, o = norm(u.schema, st, k["exp"]), norm(u.schema, st, r.get("v"))
         if e == o:
-            self.ctx.sample({"constant": k["name"], "type": tc["sig"], "way": tc["way"], "form": tc["form"], "cfg": u.cfg,
-                             "expected": k["exp"], "observed": r.get("v")})
+            self.nconst = getattr(self, "nconst", 0) + 1
+            if self.nconst % 577 == 100:
+                self.ctx.sample({"constant": k["name"], "type": tc["sig"], "way": tc["way"], "form": tc["form"], "cfg": u.cfg,
+                                 "expected": k["exp"], "observed": r.get("v")}, limit=3)
             return
         kind = "value"
         if norm(u.schema, st, k["expnd"]) == o:
@@ -600,7 +610,8 @@ class Runner:
                     return
                 if not must and n in o["isset"] and o["isset"][n] != e["isset"][n]:
                     self.soft += 1          # DESIGN's IsSet rule where the statement does not demand anything
-        if len(obs) > 2:
+        self.nstruct = getattr(self, "nstruct", 0) + 1
+        if len(obs) > 2 and self.nstruct % 397 == 50:
             self.ctx.sample({"struct": tc["struct"]["name"], "type": tc["sig"], "way": tc["way"], "cfg": u.cfg,
                              "trace": tc["struct"]["trace"][:6], "expected": exp[:3], "observed": obs[:3]}, limit=6)
 
@@ -608,9 +619,9 @@ class Runner:
         # spellings the statement does not demand may be rejected: they get programs of their own
         units = list(units)
         for u in list(units):
-            probes = [tc for tc in u.cases if tc["probe"]]
+            probes = [tc for tc in u.cases if tc["probe"] or tc["way"] in model.ISOLATED_WAYS]
             if probes and not u.single:
-                u.cases = [tc for tc in u.cases if not tc["probe"]]
+                u.cases = [tc for tc in u.cases if tc not in probes]
                 for k, tc in enumerate(probes):
                     units.append(Unit("%sp%d" % (u.cid, k), [tc], u.cfg, u.opts, single=True, level=2))
         for u in units:
@@ -685,10 +696,10 @@ def run(ctx, args):
             sel = [c for c in cases if relevant(c, cfg) and (c["depth"] == 0 or c["q"] == 1)]
             rest = [c for c in cases if not relevant(c, cfg)]
             sel = sel[:] + rnd.sample(rest, min(len(rest), 40))
-            if len(sel) > 330:
+            if len(sel) > 220:
                 keep = [c for c in sel if c["depth"] == 0]
                 more = [c for c in sel if c["depth"] > 0]
-                sel = keep + rnd.sample(more, max(0, 330 - len(keep)))
+                sel = keep + rnd.sample(more, max(0, 220 - len(keep)))
             sel.sort(key=lambda c: (c["form"], c["way"], c["sig"], c["j"], c["q"]))
         units += chunks(sel, cfg, opts, "a", ctxcase)
     rn = Runner(ctx, lits, ctxprog, "d1")
@@ -713,6 +724,12 @@ def run(ctx, args):
         soft += rn2.soft
     if soft:
         ctx.notes.append("%d IsSet observations differ from DESIGN's IsSet rule where the statement demands nothing" % soft)
+    if ctx.violations:
+        cnt = {}
+        for v in ctx.violations:
+            key = json.dumps(v["class"], sort_keys=True)
+            cnt[key] = cnt.get(key, 0) + 1
+        ctx.extra_cov["violation_classes"] = [dict(json.loads(k), n=n) for k, n in sorted(cnt.items())][:400]
     ctx.exhaustive = False
     return ctx.finish(
         rule="case = type shape (TLC Shapes, depth<=1 all, thorough: + seeded sample of depth 2) x form (literal per way of writing "
